@@ -1783,9 +1783,20 @@ def _b_str_eq_ignore_case(ev, n, a):
     return Sym("eq_ignore_ascii_case", tuple(a))
 
 
+def _b_tinystr_all_bytes(ev, n, a):
+    """TinyAsciiStr<N>::all_bytes of a concretely known string: its bytes padded with NUL to N"""
+    import re as _re
+    if len(a) == 1 and isinstance(a[0], str):
+        m = _re.search(r"\[u8; (\d+)\]", str(n.get("ty") or ""))
+        if m and len(a[0]) <= int(m.group(1)) and all(ord(c) < 128 for c in a[0]):
+            bs = [ord(c) for c in a[0]] + [0] * (int(m.group(1)) - len(a[0]))
+            return T(tuple(bs))
+    return NotImplemented
+
 _OPTION_MUTATORS = {"core::option::Option::<T>::" + m for m in ("take", "insert", "replace", "get_or_insert", "get_or_insert_with")}
 
 BUILTINS = {
+    "tinystr::ascii::TinyAsciiStr::<N>::all_bytes": _b_tinystr_all_bytes,
     "core::option::Option::<T>::unwrap_or": _b_unwrap_or,
     "core::result::Result::<T, E>::unwrap_or": _b_unwrap_or,
     "core::option::Option::<T>::unwrap": _b_unwrap,
